@@ -850,6 +850,7 @@ func b64(b []byte) string {
 // Outcomes are still compared with the reference model.
 func RunPipeRace(r *Run) {
 	c := r.C
+	setKernel(c.Intn("avx512", 2) == 1)
 	kernelSwitching = false
 	defer func() { kernelSwitching = true }()
 	procs := []int{1, 2, 3, 4, 8, 16}[c.Intn("gomaxprocs", 6)]
